@@ -3,6 +3,7 @@ package checks
 import (
 	"fmt"
 	"strconv"
+	"strings"
 
 	"verifharness/drv"
 	"verifharness/gen"
@@ -47,6 +48,11 @@ func c05Gen(seed uint64, i int) *c05Case {
 	// make sure there is something to capture
 	if len(gen.CaptureNames(c.Body))+len(gen.GlobalCaptureNames(p, c.Body)) == 0 {
 		c.Body = append(c.Body, gen.Capture{Name: "w1", Body: gen.Seq{Items: []gen.Node{gen.Loop{Min: 0, Max: 2, Form: "atmost", Body: gen.Class{Kind: "letter"}}}}})
+	}
+	if own := gen.CaptureNames(c.Body); len(own) > 0 && rng.Chance(1, 6) {
+		// a capture that happens to be called like the first transform (t1): in a `with` list the name is the
+		// transform, inside transforms it is the captured text like any other capture
+		c.Body = gen.RenameCapture(c.Body, own[rng.Intn(len(own))], "t1")
 	}
 	caps := append(gen.CaptureNames(c.Body), gen.GlobalCaptureNames(p, c.Body)...)
 	loops := gen.LoopNames(c.Body)
@@ -100,7 +106,18 @@ func c05Gen(seed uint64, i int) *c05Case {
 		case 3:
 			cs.with = append(cs.with, gen.WithItem{Kind: "var", S: gen.BuiltinWith[rng.Intn(len(gen.BuiltinWith))]})
 		case 4:
-			cs.with = append(cs.with, gen.WithItem{Kind: "var", S: "nothingNamedThis"})
+			// undefined names, also ones that differ from a capture or a built-in only in letter case
+			und := []string{"nothingNamedThis", strings.ToUpper(caps[rng.Intn(len(caps))]), "VALUE", "matchnumber", "Filename"}[rng.Intn(5)]
+			isCap := false
+			for _, cn := range caps {
+				if cn == und {
+					isCap = true
+				}
+			}
+			if isCap {
+				und = "nothingNamedThis"
+			}
+			cs.with = append(cs.with, gen.WithItem{Kind: "var", S: und})
 		case 5:
 			if len(loops) > 0 {
 				cs.with = append(cs.with, gen.WithItem{Kind: "var", S: loops[rng.Intn(len(loops))]})
